@@ -280,7 +280,7 @@ Proof.
   destruct (Z.eqb_spec s (Z.lor (u64 (Z.shiftl (u64 (4096 - w)) 41)) (Z.land s 206158430208))); [lia|]. reflexivity.
 Qed.
 
-Lemma refuse_sync_width s tail : blocked s -> exists r, f_dispatch_queue_try_reserve_sync_width 0 tail s = NoCommit r [].
+Lemma refuse_sync_width s tail w : blocked s -> exists r, f_dispatch_queue_try_reserve_sync_width 0 tail s w = NoCommit r [].
 Proof.
   intros (W & Hs). unfold f_dispatch_queue_try_reserve_sync_width.
   destruct (nz tail); cbn [negb]; [eexists; reflexivity|].
